@@ -152,21 +152,31 @@ fn handle_put<R: Read, W: Write>(
     let resp = with_commit_lock(lockdir, || {
         let current = current_hash(&dst);
         match cas_decide(current, expected) {
-            Cas::Commit => {
-                let _ = std::fs::rename(&tmp, &dst);
-                Response::PutResult {
+            // A failed rename (e.g. the destination is a directory) must not be
+            // acknowledged: nothing was committed / preserved.
+            Cas::Commit => match std::fs::rename(&tmp, &dst) {
+                Ok(()) => Response::PutResult {
                     committed: true,
                     current: Some(hash),
+                },
+                Err(e) => {
+                    let _ = std::fs::remove_file(&tmp);
+                    Response::Error(format!("commit failed: {e}"))
                 }
-            }
+            },
             Cas::Conflict => {
                 // Never overwrite on a stale CAS — land a conflict-copy.
                 let mut cn = dst.as_os_str().to_owned();
                 cn.push(format!(".conflict-{}", super::wire::short_hash(&hash)));
-                let _ = std::fs::rename(&tmp, PathBuf::from(cn));
-                Response::PutResult {
-                    committed: false,
-                    current,
+                match std::fs::rename(&tmp, PathBuf::from(cn)) {
+                    Ok(()) => Response::PutResult {
+                        committed: false,
+                        current,
+                    },
+                    Err(e) => {
+                        let _ = std::fs::remove_file(&tmp);
+                        Response::Error(format!("conflict-copy failed: {e}"))
+                    }
                 }
             }
         }
